@@ -39,46 +39,46 @@ def check(ctx):
     gh = prog.method("_LSHNearest", "get_context_hash")
     for f in (fo, gn, an, gh):
         ctx.saw_fn(f)
+    from .pattern import find, find_all, match
+    from .c15 import _inline
     # ---- R11.1 writer
     wloop = [s for s in fo.node.body if isinstance(s, ast.For)]
     wk = ast.unparse(wloop[0].target) if wloop else None
     witer = ast.unparse(wloop[0].iter) if wloop else None
-    hcalls = [c for c in ast.walk(fo.node) if isinstance(c, ast.Call) and ast.unparse(c.func) == "delayed"
-              and c.args and ast.unparse(c.args[0]).endswith("get_context_hash")]
-    w_hash_ok = False
-    if hcalls:
-        outer = parent(hcalls[0])
-        args = [ast.unparse(a) for a in outer.args] if isinstance(outer, ast.Call) else []
-        w_hash_ok = len(args) == 2 and args[0].startswith("contexts[") and args[1] == "self.table_to_plane[%s]" % wk
-    ctx.check(w_hash_ok and wk is not None, "R11.1", "writer hashes the rows with get_context_hash(rows, "
-              "table_to_plane[k])", hcalls[0] if hcalls else fo.node, fo, "table loop `for %s in %s`" % (wk, witer),
+    hn, hb = find("Parallel(n_jobs=_EJ_, backend=self.backend)("
+                  "delayed(_EH_)(contexts[_EL_:_EU_], self.table_to_plane[_K_]) for _I_ in range(_EJ_))", fo.node)
+    w_hash_ok = hn is not None and hb["_K_"] == wk and hb["_EH_"].endswith("get_context_hash")
+    ctx.check(bool(w_hash_ok and wk is not None), "R11.1", "writer hashes the rows with get_context_hash(rows, "
+              "table_to_plane[k])", hn if hn is not None else fo.node, fo, "table loop `for %s in %s`" % (wk, witer),
               construct="hash call in _fit_operation")
-    acalls = [c for c in ast.walk(fo.node) if isinstance(c, ast.Call) and ast.unparse(c.func) == "delayed"
-              and c.args and ast.unparse(c.args[0]) == "self._add_neighbors"]
-    ok_file = False
-    if acalls:
-        outer = parent(acalls[0])
-        args = [ast.unparse(a) for a in outer.args]
-        gen = parent(outer)
-        hvar = ast.unparse(gen.generators[0].target) if isinstance(gen, (ast.GeneratorExp, ast.ListComp)) else None
-        ok_file = len(args) == 4 and args[1] == wk and args[2] == hvar and args[3] == "context_start" and \
-            args[0] == "hash_values"
+    an_n, ab = find("Parallel(n_jobs=_EJ_, require='sharedmem')("
+                    "delayed(self._add_neighbors)(_HV_, _K_, _H_, context_start) for _H_ in _EKEYS_)", fo.node)
+    ok_file = an_n is not None and ab["_K_"] == wk
+    if ok_file:
+        keys = " ".join(ast.unparse(_inline(wloop[0], ast.parse(ab["_EKEYS_"], mode="eval").body)).split())
+        ok_file = keys.startswith("np.unique(")
+    p_hv, p_k, p_h, p_cs = (an.params[1:] + [None] * 4)[:4]
     store = [s for s in ast.walk(an.node) if isinstance(s, ast.AugAssign)]
-    ok_store = bool(store) and ast.unparse(store[0].target) == "self.table_to_hash_to_index[k][h]" and \
-        an.params[1:] == ["hash_values", "k", "h", "context_start"]
-    sel_ok = all("np.where(hash_values == h)[0]" in ast.unparse(s.value) for s in ast.walk(an.node)
-                 if isinstance(s, ast.Assign) and ast.unparse(s.targets[0]) == "neighbors")
-    ctx.check(ok_file and ok_store and sel_ok, "R11.1", "writer files row positions whose hash equals h under "
+    ok_store = bool(store) and ast.unparse(store[0].target) == "self.table_to_hash_to_index[%s][%s]" % (p_k, p_h) \
+        and isinstance(store[0].op, ast.Add)
+    sel_ok = ok_store
+    if ok_store:
+        val = " ".join(ast.unparse(_inline(an.node, store[0].value, stop=())).split())
+        sel_ok = ("np.where(%s == %s)[0]" % (p_hv, p_h)) in val or all(
+            ("np.where(%s == %s)[0]" % (p_hv, p_h)) in ast.unparse(s.value) for s in ast.walk(an.node)
+            if isinstance(s, ast.Assign) and isinstance(s.targets[0], ast.Name) and "np.where" in ast.unparse(s.value))
+    ctx.check(bool(ok_file and ok_store and sel_ok), "R11.1", "writer files row positions whose hash equals h under "
               "table_to_hash_to_index[k][h]", store[0] if store else an.node, an, construct="bucket store")
     # ---- R11.1 reader
     rloop = [s for s in gn.node.body if isinstance(s, ast.For)]
     rk = ast.unparse(rloop[0].target) if rloop else None
     riter = ast.unparse(rloop[0].iter) if rloop else None
     ok_r = False
+    acc_name = None
     if rloop:
-        from .c15 import _inline
-        augs = [x for x in ast.walk(rloop[0]) if isinstance(x, ast.AugAssign) and ast.unparse(x.target) == "indices"]
+        augs = [x for x in ast.walk(rloop[0]) if isinstance(x, ast.AugAssign) and isinstance(x.target, ast.Name)]
         if len(augs) == 1:
+            acc_name = augs[0].target.id
             val = " ".join(ast.unparse(_inline(rloop[0], augs[0].value)).split())
             ok_r = val == ("self.table_to_hash_to_index[%s][self.get_context_hash(row_2d, self.table_to_plane[%s])[0]]"
                            % (rk, rk))
@@ -88,21 +88,30 @@ def check(ctx):
               "writer and reader range over the same set of tables", rloop[0] if rloop else gn.node, gn,
               "writer iterates %s, reader iterates %s" % (witer, riter), construct="table key sets")
     # ---- R11.4
-    acc = [s for s in gn.node.body if isinstance(s, ast.Assign) and ast.unparse(s.targets[0]) == "indices"]
+    acc = [s for s in gn.node.body if isinstance(s, ast.Assign) and ast.unparse(s.targets[0]) == acc_name]
     rets = [s for s in gn.node.body if isinstance(s, ast.Return)]
     ok_u = bool(acc) and ast.unparse(acc[0].value) in ("list()", "[]") and bool(rets) and \
-        ast.unparse(rets[-1].value) == "indices"
+        ast.unparse(rets[-1].value) == acc_name
     ctx.check(ok_u, "R11.4", "the candidates of all tables are accumulated in one list", gn.node, gn,
               construct="def _LSHNearest._get_neighbors (union)")
     pc = prog.method("_ApproximateNeighbors", "_predict_contexts")
     ctx.saw_fn(pc)
-    psrc = " ".join(ast.unparse(pc.node).split())
-    ok_d = "indices = self._get_neighbors(row_2d)" in psrc and "indices = list(set(indices))" in psrc and \
-        psrc.index("indices = list(set(indices))") < psrc.index("self._get_nhood_predictions(")
-    ok_e = "if len(indices) > 0:" in psrc and "self._get_no_nhood_predictions(lp, is_predict)" in psrc
-    ctx.check(ok_d, "R11.4", "duplicates are dropped before the neighbourhood policy is trained", pc.node, pc,
+    g1, b1 = find("_X_ = self._get_neighbors(row_2d)", pc.node)
+    g2, _ = find("_X_ = list(set(_X_))", pc.node, b1) if b1 else (None, None)
+    g2b, b2b = find("_X_ = list(set(self._get_neighbors(row_2d)))", pc.node)
+    X = (b1 or b2b or {}).get("_X_")
+    tr, _ = find("self._get_nhood_predictions(lp, _X_, row_2d, is_predict)", pc.node, {"_X_": X}) if X else (None, None)
+    ok_d = (g2 is not None or g2b is not None) and tr is not None and (g2 or g2b).lineno < tr.lineno
+    gi = None
+    for cand in ast.walk(pc.node):
+        if isinstance(cand, ast.If) and X and ast.unparse(cand.test) in ("len(%s) > 0" % X, "len(%s)" % X, X,
+                                                                       "len(%s) != 0" % X):
+            gi = cand
+    ok_e = gi is not None and gi.orelse and "_get_nhood_predictions" in ast.unparse(gi.body[0]) and \
+        "_get_no_nhood_predictions(lp, is_predict)" in ast.unparse(gi.orelse[0])
+    ctx.check(bool(ok_d), "R11.4", "duplicates are dropped before the neighbourhood policy is trained", pc.node, pc,
               construct="de-duplication in _predict_contexts")
-    ctx.check(ok_e, "R11.4", "an empty candidate set takes the empty-neighbourhood path", pc.node, pc,
+    ctx.check(bool(ok_e), "R11.4", "an empty candidate set takes the empty-neighbourhood path", pc.node, pc,
               construct="empty candidate set")
     # ---- R11.5
     p_ctx, p_plane = gh.params[0], gh.params[1]
@@ -126,8 +135,14 @@ def check(ctx):
     ctx.check(ok5 and len(uses) >= 2, "R11.5", "a row influences its hash only through the sign of its projections",
               gh.node, gh, "; ".join(detail), construct="def get_context_hash")
     # hash value = sum of 2^i * sign bits
-    src = " ".join(ast.unparse(gh.node).split())
-    ok_sum = "hash_values + projection_signs[:, i] * 2 ** i" in src and "for i in range(%s.shape[1])" % p_plane in src
+    lp_n, lb = find("for _I_ in range(%s.shape[1]):\n    _HV_ = _HV_ + _PS_[:, _I_] * 2 ** _I_" % p_plane, gh.node)
+    ok_sum = lp_n is not None
+    if ok_sum:
+        ps, _ = find("%s = 1 * (np.dot(%s, %s) > 0)" % (lb["_PS_"], p_ctx, p_plane), gh.node)
+        ok_sum = ps is not None or any(ast.unparse(n.value).startswith("1 * (np.dot(") or
+                                       "np.dot(%s, %s)" % (p_ctx, p_plane) in ast.unparse(n.value)
+                                       for n in ast.walk(gh.node) if isinstance(n, ast.Assign)
+                                       and ast.unparse(n.targets[0]) == lb["_PS_"])
     ctx.check(ok_sum, "R11.5", "hash code = sum over planes of 2^i * [projection_i > 0]", gh.node, gh,
               construct="hash code accumulation")
     # ---- R11.2 traces
@@ -161,9 +176,9 @@ def check(ctx):
     fsrc = " ".join(ast.unparse(fit.node).split())
     isrc = " ".join(ast.unparse(init_fn.node).split())
     arg = init_fn.params[1]
-    ok_shape = "self._initialize(contexts.shape[1])" in fsrc and \
-        ("self.rng.standard_normal(size=(%s, self.n_dimensions))" % arg) in isrc and \
-        "for i in self.table_to_plane.keys()" in isrc
+    sh_n, _ = find("self.table_to_plane = {_I_: self.rng.standard_normal(size=(%s, self.n_dimensions)) "
+                   "for _I_ in self.table_to_plane.keys()}" % arg, init_fn.node)
+    ok_shape = "self._initialize(contexts.shape[1])" in fsrc and sh_n is not None
     ctx.check(ok_shape, "R11.2", "one plane matrix of shape (context columns, n_dimensions) per table", init_fn.node,
               init_fn, construct="def _LSHNearest._initialize")
     check_lsh_offset(ctx)
